@@ -2,7 +2,14 @@ import Q1t.Proofs.SimGFStep
 import Q1t.Proofs.SimGFAll
 /-!
 C01, step 6: the fragment F and the multinomial law `exec_gf` of the simulator model
-(see `SimGFStep.lean` for the hypotheses `Hyps` and the per-operation lemmas).
+(see `SimGFStep.lean` for the hypotheses `Hyps` and the per-operation lemmas, `SimGFAll.lean` for `measure_all`).
+
+* `InF n valid op` — the fragment F, per operation: no `peek`, `peek_all`, `reset_all`; gate placements
+  valid; qubits `< n`; classical bits `< 64` (a larger one is a shift-overflow panic, D10); control lists of at
+  most 64 bits `< 64`; `measure_all` in the Z basis with `n` distinct classical bits.
+* `op_step`, `exec_gf` (induction over the operation list), `histogram_gf` (from `|0…0⟩`, `N ≥ 1` shots),
+  `zero_prob_never`, `gfShot_one` / `exec_total` (a circuit of F never fails: total probability 1).
+  The order oracle `ord` of the categorical node must list its input in some order: `(ord l).Perm l`.
 -/
 set_option linter.unusedSectionVars false
 set_option linter.unusedSimpArgs false
